@@ -148,4 +148,22 @@ def recvOf : Member → MemberRecv
 `if (exp_type.level() == 0)`: every table passes) -/
 def recvOk (m : Member) (exp : Ty) : Bool := exp.level != 0 || (recvOf m).receivers.contains exp.major
 
+/-! ### member methods: the value argument of put / insert / concat on a level-0 receiver (Gen/MemberSigs.lean `*_arg0`) -/
+
+def evalArgRule : ArgRule → Ty → Bool
+  | .any, _ => true
+  | .oneOf ms orInt, t => ms.contains t.major || (orInt && typeChecking t Ty.int)
+
+/-- level-0 receiver: is the value argument accepted? (`none` = the receiver's major has no case in the switch) -/
+def arg0Ok (tbl : List (Major × ArgRule)) (exp arg : Ty) : Option Bool :=
+  (tbl.find? (·.1 == exp.major)).map fun r => evalArgRule r.2 arg
+
+def arg0Of : Member → List (Major × ArgRule)
+  | .put => Memb.put_arg0 | .insert => Memb.insert_arg0 | .concat => Memb.concat_arg0 | _ => []
+
+/-- the arguments in front of the value argument (the position) -/
+def lead : Member → List Ty
+  | .put | .insert => [Ty.int]
+  | _ => []
+
 end BlocV.GenEval
